@@ -230,16 +230,19 @@ func raises(op compiler.Opcode, r value.Value) bool {
 	return false
 }
 
-// covered: the opcodes whose execution this contract describes. The other
-// instructions (calls into the host, spawning, member lookup, indexing,
-// casts, iteration, globals, imports) are not under this contract.
+// covered: the opcodes whose execution this contract describes. The others
+// (Spawn, Call_Val, Load_Singleton, HostCall, GetGlobImm, SetGlobImm, Cast,
+// Index, Member, Import, IntoIter, IteratorAdvance) call into the host, into
+// builtin callbacks or into the member/cast machinery of the value library
+// and are outside this contract.
 func covered(op compiler.Opcode) bool {
 	switch op {
 	case compiler.Opcode_Nop, compiler.Opcode_AddMempointer, compiler.Opcode_Copy_Push, compiler.Opcode_Drop,
 		compiler.Opcode_Duplicate, compiler.Opcode_Jump, compiler.Opcode_JumpIfFalse, compiler.Opcode_GetVarImm,
 		compiler.Opcode_SetVarImm, compiler.Opcode_Assign, compiler.Opcode_Neg, compiler.Opcode_Some, compiler.Opcode_Not,
 		compiler.Opcode_Pow, compiler.Opcode_SetTryLabel, compiler.Opcode_PopTryLabel, compiler.Opcode_Member_Unwrap,
-		compiler.Opcode_Member_Anyobj, compiler.Opcode_Into_Range, compiler.Opcode_Call_Imm, compiler.Opcode_Return:
+		compiler.Opcode_Member_Anyobj, compiler.Opcode_Into_Range, compiler.Opcode_Call_Imm, compiler.Opcode_Return,
+		compiler.Opcode_Clone, compiler.Opcode_Cloning_Push, compiler.Opcode_Eq, compiler.Opcode_Eq_PopOnce, compiler.Opcode_Throw:
 		return true
 	}
 	return isBinary(op)
@@ -282,12 +285,22 @@ func instrPre(c Core, i compiler.Instruction) bool {
 		return c.okTop(2) && c.peek(0).Kind() == value.IntValueKind && c.peek(1).Kind() == value.IntValueKind
 	case compiler.Opcode_Pow:
 		return c.okTop(2) && admissible(op, c.peek(1), c.peek(0))
+	case compiler.Opcode_Clone, compiler.Opcode_Throw:
+		return c.okTop(1)
+	case compiler.Opcode_Cloning_Push:
+		return true
+	case compiler.Opcode_Eq, compiler.Opcode_Eq_PopOnce:
+		return c.okTop(2) && c.peek(0).Kind() == c.peek(1).Kind()
 	}
 	if isBinary(op) {
 		return c.okTop(2) && admissible(op, c.peek(1), c.peek(0))
 	}
-	return false
+	// instructions outside the contract: nothing is required (and nothing is promised)
+	return !covered(op)
 }
+
+// tryLens: the two handler stacks have the same height.
+func tryLens(c Core) bool { return len(c.tryStates) == len(c.ExceptionCatchLabels) }
 
 // fatalOf: i is a fatal runtime error of the given kind.
 func fatalOf(i *value.VmInterrupt, kind value.VMFatalExceptionKind) bool {
@@ -328,8 +341,11 @@ func stackEffect(op compiler.Opcode) int {
 	switch op {
 	case compiler.Opcode_Copy_Push, compiler.Opcode_Duplicate, compiler.Opcode_GetVarImm:
 		return 1
-	case compiler.Opcode_Drop, compiler.Opcode_JumpIfFalse, compiler.Opcode_SetVarImm, compiler.Opcode_Pow, compiler.Opcode_Into_Range:
+	case compiler.Opcode_Drop, compiler.Opcode_JumpIfFalse, compiler.Opcode_SetVarImm, compiler.Opcode_Pow, compiler.Opcode_Into_Range,
+		compiler.Opcode_Eq:
 		return -1
+	case compiler.Opcode_Cloning_Push:
+		return 1
 	case compiler.Opcode_Assign:
 		return -2
 	}
@@ -376,16 +392,25 @@ func keepsFrame(op compiler.Opcode) bool {
 /*@ func (self *Core) runInstruction
     serves C01, C02, C04, C09, C11, C16
     wrap int64
-    requires covered(instruction.Opcode()) && instrPre(*self, instruction)
+    ghostset sincePoll = ghost(sincePoll) + 1
+    assumes covered(instruction.Opcode())
+    requires instrPre(*self, instruction)
+    modifies self.Stack, self.CallStack, self.MemoryPointer, self.ExceptionCatchLabels, self.tryStates, elems(self.tryStates), elems(self.Stack), elems(self.Memory), elems(self.CallStack), elems(self.ExceptionCatchLabels), heap(value.Value)
+    ensures @interrupt-wellformed result != nil ==> *result != nil
+    ensures @frames-on-interrupt result != nil ==> len(self.CallStack) == old(len(self.CallStack))
     requires disjoint(self.CallStack, self.ExceptionCatchLabels) && disjoint(self.Stack, self.Memory)
     requires self.Limits.MaxMemorySize < 1<<62
+    requires @try-wf tryLens(*self)
+    ensures @try-wf tryLens(*self)
     ensures @binary result == nil && isBinary(instruction.Opcode()) ==> binResult(instruction.Opcode(), old(self.peek(1)), old(self.peek(0)), self.peek(0))
     ensures @raises isBinary(instruction.Opcode()) ==> (result != nil <==> raises(instruction.Opcode(), old(self.peek(0))))
     ensures @raises-kind isBinary(instruction.Opcode()) && result != nil ==> fatalOf(result, value.Vm_ValueErrorKind)
-    ensures @effect result == nil ==> self.depth() == old(self.depth())+stackEffect(instruction.Opcode())
-    ensures @advance result == nil && keepsFrame(instruction.Opcode()) ==> len(self.CallStack) == old(len(self.CallStack)) && self.frameIP() == old(self.frameIP())+1
+    ensures @effect covered(instruction.Opcode()) && result == nil ==> self.depth() == old(self.depth())+stackEffect(instruction.Opcode())
+    ensures @advance covered(instruction.Opcode()) && result == nil && keepsFrame(instruction.Opcode()) ==> len(self.CallStack) == old(len(self.CallStack)) && self.frameIP() == old(self.frameIP())+1
     ensures @unary result == nil && (instruction.Opcode() == compiler.Opcode_Neg || instruction.Opcode() == compiler.Opcode_Not) ==> unaryResult(instruction.Opcode(), old(self.peek(0)), self.peek(0))
-    ensures @no-error-otherwise !isBinary(instruction.Opcode()) && instruction.Opcode() != compiler.Opcode_AddMempointer && instruction.Opcode() != compiler.Opcode_Member_Unwrap ==> result == nil
+    ensures @no-error-otherwise covered(instruction.Opcode()) && !isBinary(instruction.Opcode()) && instruction.Opcode() != compiler.Opcode_AddMempointer && instruction.Opcode() != compiler.Opcode_Member_Unwrap && instruction.Opcode() != compiler.Opcode_Eq && instruction.Opcode() != compiler.Opcode_Eq_PopOnce && instruction.Opcode() != compiler.Opcode_Throw ==> result == nil
+    ensures @throw instruction.Opcode() == compiler.Opcode_Throw ==> result != nil && len(self.CallStack) == old(len(self.CallStack)) && self.depth() == old(self.depth())-1
+    ensures @frames-kept covered(instruction.Opcode()) && instruction.Opcode() != compiler.Opcode_Call_Imm && instruction.Opcode() != compiler.Opcode_Return ==> len(self.CallStack) == old(len(self.CallStack))
     ensures @jump instruction.Opcode() == compiler.Opcode_Jump ==> self.frameIP() == uint(instruction.(compiler.OneIntInstruction).Value) && len(self.CallStack) == old(len(self.CallStack))
     ensures @jump-if-false instruction.Opcode() == compiler.Opcode_JumpIfFalse && !old(self.peek(0)).(value.ValueBool).Inner ==> self.frameIP() == uint(instruction.(compiler.OneIntInstruction).Value)
     ensures @jump-if-true instruction.Opcode() == compiler.Opcode_JumpIfFalse && old(self.peek(0)).(value.ValueBool).Inner ==> self.frameIP() == old(self.frameIP())+1
@@ -402,4 +427,48 @@ func keepsFrame(op compiler.Opcode) bool {
     ensures @member-anyobj instruction.Opcode() == compiler.Opcode_Member_Anyobj ==> self.peek(0).Kind() == value.OptionValueKind
     ensures @unwrap-none instruction.Opcode() == compiler.Opcode_Member_Unwrap ==> (result != nil <==> old(self.peek(0)).(value.ValueOption).Inner == nil)
     ensures @some instruction.Opcode() == compiler.Opcode_Some ==> self.peek(0).Kind() == value.OptionValueKind && self.peek(0).(value.ValueOption).Inner != nil && *self.peek(0).(value.ValueOption).Inner == old(self.peek(0))
+@*/
+
+// termination: i is a termination interrupt.
+func terminationOf(i *value.VmInterrupt) bool {
+	if i == nil || *i == nil {
+		return false
+	}
+	return (*i).Kind() == value.Vm_TerminateInterruptKind
+}
+
+/*@ func (core *Core) checkCancelation
+    serves C10, C02
+    requires core.CancelCtx != nil && *core.CancelCtx != nil && core.parent != nil && len(core.CallStack) > 0
+    modifies nothing
+    ensures @termination result != nil ==> terminationOf(result)
+    ghostset sincePoll = 0
+@*/
+
+/*@ func (self *Core) Run
+    serves C09, C10, C11, C02, C16
+    assumepre runInstruction
+    assume-unreachable Cannot execute instructions
+    requires self.parent != nil && self.Program != nil && self.CancelCtx != nil && *self.CancelCtx != nil
+    requires debuggerOut == nil && debuggerResume == nil
+    requires disjoint(self.CallStack, self.ExceptionCatchLabels) && disjoint(self.Stack, self.Memory) && self.Limits.MaxMemorySize < 1<<62
+    requires tryLens(*self)
+    requires self.Limits.StackMaxSize < 1<<62 && self.Limits.CallStackMaxSize < 1<<62
+    ensures @one-signal sentcount(self.SignalHandle) == old(sentcount(self.SignalHandle))+1
+    loop 1 invariant @signal-pending sentcount(self.SignalHandle) == old(sentcount(self.SignalHandle))
+    loop 1 invariant @try-wf tryLens(*self)
+    loop 1 invariant @state self.parent == old(self.parent) && self.parent != nil && self.Program != nil && self.CancelCtx != nil && *self.CancelCtx != nil
+    loop 2 invariant @signal-pending sentcount(self.SignalHandle) == old(sentcount(self.SignalHandle))
+    loop 2 invariant @try-wf tryLens(*self)
+    loop 2 invariant @state self.parent == old(self.parent) && self.parent != nil && self.Program != nil && self.CancelCtx != nil && *self.CancelCtx != nil
+    loop 2 invariant @quantum-within-limits c == 0 ==> len(self.Stack) <= int(self.Limits.StackMaxSize) && len(self.CallStack) <= int(self.Limits.CallStackMaxSize)
+    loop 2 invariant @polled ghost(sincePoll) <= c
+    loop 2 invariant @quantum 0 <= c && c <= NUM_INSTRUCTIONS_EXECUTE_PER_VCYCLE
+    loop 2 decreases NUM_INSTRUCTIONS_EXECUTE_PER_VCYCLE - c
+    loop 6 invariant @try-wf tryLens(*self)
+    loop 6 invariant @signal-pending sentcount(self.SignalHandle) == old(sentcount(self.SignalHandle))
+    loop 6 invariant @state self.parent == old(self.parent) && self.parent != nil && self.Program != nil && self.CancelCtx != nil && *self.CancelCtx != nil
+    loop 6 invariant @frames len(self.CallStack) == entry(len(self.CallStack)) && sameslice(self.CallStack, entry(self.CallStack)) && sameslice(self.Stack, entry(self.Stack))
+    loop 6 invariant @polled ghost(sincePoll) == entry(ghost(sincePoll))
+    loop 6 decreases len(self.tryStates)
 @*/
